@@ -99,4 +99,29 @@ def outcome (usizeMask : Nat) (t : Ty) (neg : Bool) (spelling : List Char) : Out
           .value (materialise usizeMask t node) (lintNode t node)
   | _ => .error 0
 
+/-! ### the target: `usize` is 32 bits wide on wasm32 (`penne --wasm`)
+
+  In every respect that concerns a literal — range, lint, constant — `usize` on a 32-bit target is `u32`
+  (linter.rs `Linter::max_u128`, generator.rs `type_of_usize`). -/
+def targetTy (ptr32 : Bool) : Ty → Ty
+  | .usize => if ptr32 then .u32 else .usize
+  | t => t
+
+/-- `var x: t = [-]<spelling>;` compiled for the target -/
+def outcomeOn (ptr32 : Bool) (usizeMask : Nat) (t : Ty) (neg : Bool) (spelling : List Char) : Outcome :=
+  match Lex.lex spelling with
+  | [lt] =>
+    match lt.tok with
+    | .err c => .error c
+    | tok =>
+      match primary tok with
+      | none => .error 0
+      | some node =>
+        let sufOk := match tok with | .suf _ t' => t' == t | _ => true
+        if !sufOk then .typeMismatch
+        else
+          let node := if neg then negate node else node
+          .value (materialise usizeMask (targetTy ptr32 t) node) (lintNode (targetTy ptr32 t) node)
+  | _ => .error 0
+
 end Lit
